@@ -94,7 +94,8 @@ class Compiler:
             if tag in prev_tags:
                 return tag, [], str(tag) + ':'
             cons_set = []
-            cons_set_str = str(tag) + ':'
+            # Temporary tags are never repeated, so their numbers are left out of the merging key
+            cons_set_str = (str(tag) if tag >= 0 else '-') + ':'
             for cons in self.cons_set:
                 if tag not in set(int(x) for x in cons.pat.id.split(' ')):
                     continue
@@ -170,7 +171,7 @@ class Compiler:
         # id of next named/normal pattern
         next_named = 1
         # id of next temporary pattern
-        next_temp = -1
+        self.next_temp = -1
         # First number rule names
         all_temp_pats = []
         for rule in self.lvs.rules:
@@ -184,8 +185,8 @@ class Compiler:
                 pid = c.id
                 if pid[0] == '_':
                     # Always allocate a new number for temporary pattern
-                    c.id = str(next_temp)
-                    next_temp -= 1
+                    c.id = str(self.next_temp)
+                    self.next_temp -= 1
                     if pid not in temp_pats:
                         temp_pats[pid] = [c.id]
                     else:
@@ -226,6 +227,22 @@ class Compiler:
                     except (KeyError, IndexError):
                         raise SemanticError(f'Pattern {cons.pat.id} never occurs before.')
 
+    def _rename_temp_tags(self, chain: RuleChain) -> tuple[list, list[psr.TagConstraint]]:
+        mapping = {}
+
+        def fresh(tag: str) -> str:
+            if tag not in mapping:
+                mapping[tag] = str(self.next_temp)
+                self.next_temp -= 1
+            return mapping[tag]
+
+        name = [psr.Pattern(fresh(c.id)) if isinstance(c, psr.Pattern) and c.id[0] == '-' else c
+                for c in chain.name]
+        cons_set = [psr.TagConstraint(psr.Pattern(' '.join(fresh(t) for t in cons.pat.id.split(' '))), cons.options)
+                    if cons.pat.id[0] == '-' else cons
+                    for cons in chain.cons_set]
+        return name, cons_set
+
     def _replicate_rules(self):
         self.rep_rules = {}
         for rule in self.lvs.rules:
@@ -240,13 +257,16 @@ class Compiler:
                     for chain in cur_chains:
                         chain.name.append(comp)
                 else:
-                    # Note: this repeats temporary tag numbers, which needs to be fixed before emit.
-                    new_chains = [self.RuleChain(id=rule.id.id,
-                                                 name=chain.name+ref_chain.name,
-                                                 cons_set=chain.cons_set+ref_chain.cons_set,
-                                                 sign_cons=chain.sign_cons)
-                                  for ref_chain in self.rep_rules[comp.id]
-                                  for chain in cur_chains]
+                    # Every inlined copy gets fresh temporary tag numbers. Otherwise a rule referred to
+                    # twice would repeat its temporary tags and lose the constraints of the second copy.
+                    new_chains = []
+                    for ref_chain in self.rep_rules[comp.id]:
+                        for chain in cur_chains:
+                            ref_name, ref_cons_set = self._rename_temp_tags(ref_chain)
+                            new_chains.append(self.RuleChain(id=rule.id.id,
+                                                             name=chain.name+ref_name,
+                                                             cons_set=chain.cons_set+ref_cons_set,
+                                                             sign_cons=chain.sign_cons))
                     assert len(new_chains) > 0
                     cur_chains = new_chains
             if rule.id.id not in self.rep_rules:
